@@ -144,6 +144,21 @@ def _extpair_one(item):
     samename, samedomain, deep, viaarray = item
     try:
         e1 = h.ExternalModule(name="res", domain="pdk_a", port_list=[h.Port(name="p"), h.Port(name="n")], paramtype=dict)
+        if viaarray == "sameports":
+            # the second one has the very same port names, but a wider port: as much a different module as one with other ports
+            e2 = h.ExternalModule(name="res" if samename else "res2", domain="pdk_a" if samedomain else "pdk_b",
+                                  port_list=[h.Port(name="p"), h.Port(name="n", width=2)], paramtype=dict)
+            inner = h.Module(name="ExtInner")
+            inner.x, inner.y, inner.w2 = h.Port(), h.Port(), h.Signal(width=2)
+            inner.u = e2(dict(k=2))(p=inner.x, n=inner.w2)
+            inner.tie = h.R(r=1)(p=inner.w2[0], n=inner.y)
+            top = h.Module(name="ExtTop")
+            top.a, top.c = h.Signal(), h.Signal()
+            top.u1 = e1(dict(k=1))(p=top.a, n=top.c)
+            top.i = inner(x=top.a, y=top.c)
+            pkg = h.to_proto(top)
+            probs = wfmod.wf(pkg) or wfmod.accepts(pkg, netlist=not samename)
+            return item, "pkg", probs
         e2 = h.ExternalModule(name="res" if samename else "res2", domain="pdk_a" if samedomain else "pdk_b",
                               port_list=[h.Port(name="p"), h.Port(name="n"), h.Port(name="b")], paramtype=dict)
         inner = h.Module(name="ExtInner")
@@ -415,7 +430,7 @@ def run(ctx):
                     ctx.violation(dict(corpus="generated_names", ptype=ptype, problem=classify(probs[0])), dict(item=[ptype, va, vb]), probs[:5])
     # (c3) pairs of external modules
     import itertools as _it
-    for item in _it.product((True, False), (True, False), (True, False), (True, False)):
+    for item in list(_it.product((True, False), (True, False), (True, False), (True, False))) + [(sn, sd, True, "sameports") for sn in (True, False) for sd in (True, False)]:
         it, status, probs = _extpair_one(item)
         ctx.count(states=1, transitions=2, traces_validated_against_impl=1)
         ctx.fam("external_module_pairs", **{("pkg" if status == "pkg" else "raised"): 1})
